@@ -550,6 +550,10 @@ def _construct_real(plate, maskin, mode, sel):
     sn = np.array(["s"] * n, dtype=str)
     pn = np.array(["plate-%d" % p for p in plate], dtype=str)
     obs = np.array([0.25 + 0.01 * (i + 1) for i in range(n)])
+    # any value may be given as an observation: one NaN, one negative, one infinite among them (value tokens stay one per row)
+    for j, special in zip(range((sum(plate) + len(sel)) % 2, n, 2), (float("nan"), -0.5, float("inf"))):
+        obs[j] = special
+    tokmap = {bits(float(x)): i + 1 for i, x in enumerate(obs)}
     kw = {}
     if mode in ("mask", "nomask"):
         kw["observations"] = obs.copy()
@@ -562,6 +566,10 @@ def _construct_real(plate, maskin, mode, sel):
     def vt(x):
         if x == 0.0:
             return 0
+        if bits(x) in tokmap:
+            return tokmap[bits(x)]
+        if x != x or x in (float("inf"), float("-inf")):
+            return 998
         k = int(round((x - 0.25) / 0.01))
         if 1 <= k <= n and bits(x) == bits(0.25 + 0.01 * k):
             return k
